@@ -14,12 +14,86 @@ import (
 	"context"
 	"fmt"
 	"sort"
+	"sync"
 	"testing"
 	"time"
 
+	gerrors "github.com/tochemey/goakt/v4/errors"
 	"github.com/tochemey/goakt/v4/internal/commands"
 	"github.com/tochemey/goakt/v4/test/data/testpb"
 )
+
+// wpMemWorkQueue is a linearizable in-memory DurableWorkQueue following the interface contract.
+type wpMemWorkQueue struct {
+	mu         sync.Mutex
+	epoch      QueueEpoch
+	currentSeq int64
+	stored     []UnconfirmedMessage
+	confirmed  map[string]bool
+}
+
+func (x *wpMemWorkQueue) ID() string                     { return "wpMemWorkQueue" }
+func (x *wpMemWorkQueue) MarshalBinary() ([]byte, error) { return []byte(x.ID()), nil }
+func (x *wpMemWorkQueue) UnmarshalBinary([]byte) error   { return nil }
+
+func (x *wpMemWorkQueue) Load(context.Context) (WorkQueueState, QueueEpoch, error) {
+	x.mu.Lock()
+	defer x.mu.Unlock()
+	x.epoch++
+	st, err := NewWorkQueueState(x.currentSeq, append([]UnconfirmedMessage(nil), x.stored...))
+	return st, x.epoch, err
+}
+
+func (x *wpMemWorkQueue) Store(_ context.Context, epoch QueueEpoch, request StoreRequest) (StoreResult, error) {
+	x.mu.Lock()
+	defer x.mu.Unlock()
+	if epoch != x.epoch {
+		return StoreResult{}, gerrors.ErrQueueFenced
+	}
+	for _, m := range x.stored {
+		if m.MessageID() == request.MessageID() {
+			return NewStoreResult(m.Seq(), true, m.Payload())
+		}
+	}
+	if request.ProposedSeq() != x.currentSeq+1 {
+		return StoreResult{}, gerrors.ErrQueueConflict
+	}
+	m, err := NewUnconfirmedMessage(request.MessageID(), request.ProposedSeq(), request.Payload())
+	if err != nil {
+		return StoreResult{}, err
+	}
+	x.currentSeq++
+	x.stored = append(x.stored, m)
+	return NewStoreResult(m.Seq(), false, m.Payload())
+}
+
+func (x *wpMemWorkQueue) Accept(_ context.Context, epoch QueueEpoch, _ string) error {
+	x.mu.Lock()
+	defer x.mu.Unlock()
+	if epoch != x.epoch {
+		return gerrors.ErrQueueFenced
+	}
+	return nil
+}
+
+func (x *wpMemWorkQueue) ConfirmMessage(_ context.Context, epoch QueueEpoch, messageID string) error {
+	x.mu.Lock()
+	defer x.mu.Unlock()
+	if epoch != x.epoch {
+		return gerrors.ErrQueueFenced
+	}
+	if x.confirmed == nil {
+		x.confirmed = map[string]bool{}
+	}
+	x.confirmed[messageID] = true
+	for k, m := range x.stored {
+		if m.MessageID() == messageID {
+			x.stored = append(x.stored[:k:k], x.stored[k+1:]...)
+			break
+		}
+	}
+	return nil
+}
 
 type wpOp struct {
 	Op    string  `json:"op"` // Register Request Ack Produced StoredAck Tick Terminated Join Leave
@@ -37,15 +111,18 @@ type wpOp struct {
 }
 
 type wpCase struct {
-	ID     string    `json:"id"`
-	Mode   string    `json:"mode"`
-	Notify bool      `json:"notify"`
-	Window int       `json:"window"`
-	Ops    []wpOp    `json:"ops"` // model inputs only (Join/Leave are environment events, recorded in Events)
-	Obs    [][]int64 `json:"obs"`
-	Events []string  `json:"events"`
-	Failed bool      `json:"failed"`
-	Error  string    `json:"error,omitempty"`
+	ID             string    `json:"id"`
+	Mode           string    `json:"mode"`
+	Notify         bool      `json:"notify"`
+	Window         int       `json:"window"`
+	Ops            []wpOp    `json:"ops"` // model inputs only (Join/Leave are environment events, recorded in Events)
+	Obs            [][]int64 `json:"obs"`
+	Events         []string  `json:"events"`
+	Durable        bool      `json:"durable"`
+	QueueConfirmed []int64   `json:"queue_confirmed"` // message numbers the durable work queue holds as confirmed at the end
+	QueueLeft      []int64   `json:"queue_left"`      // message numbers still stored (unconfirmed) in the queue at the end
+	Failed         bool      `json:"failed"`
+	Error          string    `json:"error,omitempty"`
 }
 
 type wpWorker struct {
@@ -77,16 +154,24 @@ type wpWorld struct {
 	workers map[int64]*wpWorker // by ctrl id, every generation ever created
 	current map[int64]*wpWorker // by worker number: latest generation
 	newProd []any
+	queue   *wpMemWorkQueue
+	results []any
 }
 
-func newWpWorld(ctx context.Context, sys *actorSystem, tag string, notify bool) (*wpWorld, error) {
+func newWpWorld(ctx context.Context, sys *actorSystem, tag string, notify bool, durable bool) (*wpWorld, error) {
 	w := &wpWorld{ctx: ctx, sys: sys, tag: tag, ids: newRdIDs(), prodRec: &rdRecorder{}, workers: map[int64]*wpWorker{}, current: map[int64]*wpWorker{}}
 	var err error
 	if w.prod, err = sys.Spawn(ctx, "vwprod-"+tag, w.prodRec); err != nil {
 		return nil, err
 	}
-	conf := &reliableProducerConfig{workPulling: true, retryInterval: time.Hour, deliveryConfirmation: notify}
-	w.wp = newWorkPullingProducerController(w.prod, conf, nil)
+	conf := &reliableProducerConfig{workPulling: true, retryInterval: time.Hour, deliveryConfirmation: notify,
+		queueRetry: &reliableQueueRetryConfig{maxAttempts: 1, initialBackoff: time.Millisecond}}
+	if durable {
+		w.queue = &wpMemWorkQueue{}
+		w.wp = newWorkPullingProducerController(w.prod, conf, w.queue)
+	} else {
+		w.wp = newWorkPullingProducerController(w.prod, conf, nil)
+	}
 	w.sh = &rdShell{inner: w.wp, started: make(chan struct{})}
 	if w.pid, err = sys.Spawn(ctx, "vwp-"+tag, w.sh); err != nil {
 		return nil, err
@@ -157,7 +242,7 @@ func (w *wpWorld) leave(wk *wpWorker) {
 		}
 		time.Sleep(200 * time.Microsecond)
 	}
-	w.sh.takeStray()
+	w.collectResults()
 }
 
 func (w *wpWorld) close() {
@@ -221,8 +306,27 @@ func (w *wpWorld) encMsg(m any) []int64 {
 	return []int64{99}
 }
 
+func (w *wpWorld) collectResults() {
+	if w.queue == nil {
+		return
+	}
+	deadline := time.Now().Add(5 * time.Second)
+	for {
+		for _, m := range w.sh.takeStray() {
+			if r, ok := m.(*queueOpResult); ok {
+				w.results = append(w.results, r)
+			}
+		}
+		if !w.wp.opInFlight || len(w.results) > 0 || !w.pid.IsRunning() || time.Now().After(deadline) {
+			return
+		}
+		time.Sleep(50 * time.Microsecond)
+	}
+}
+
 // observe: traffic per alive companion (ascending id), to the producer endpoint, and the controller state.
 func (w *wpWorld) observe(alive []int64, shut bool) []int64 {
+	w.collectResults()
 	var out []int64
 	for _, c := range alive {
 		wk := w.workers[c]
@@ -320,6 +424,13 @@ func (w *wpWorld) apply(o wpOp) ([]int64, error) {
 			from = w.pid
 		}
 		return w.step(from, &StoredAck{sessionID: ids.sessS(o.S), token: ids.tokS(o.T), messageID: rdMidS(o.M)}, o.Alive), nil
+	case "QueueResult":
+		if len(w.results) == 0 {
+			return w.observe(o.Alive, false), nil
+		}
+		r := w.results[0]
+		w.results = w.results[1:]
+		return w.step(w.pid, r, o.Alive), nil
 	case "Tick":
 		g := w.wp.generation
 		if o.Stale {
@@ -486,6 +597,9 @@ func (s *wpSched) next() (wpOp, bool) {
 	if s.mode == "churn" {
 		churn = 14
 	}
+	if len(s.w.results) > 0 && r.intn(100) < 35 {
+		return wpOp{Op: "QueueResult"}, true
+	}
 	x := r.intn(100)
 	switch {
 	case x < churn:
@@ -532,8 +646,8 @@ func (s *wpSched) next() (wpOp, bool) {
 }
 
 func wpRunCase(ctx context.Context, sys *actorSystem, p wpPlan) *wpCase {
-	c := &wpCase{ID: p.ID, Mode: p.Mode, Notify: p.Notify, Window: p.Window, Events: []string{}}
-	w, err := newWpWorld(ctx, sys, p.ID, p.Notify)
+	c := &wpCase{ID: p.ID, Mode: p.Mode, Notify: p.Notify, Window: p.Window, Events: []string{}, Durable: p.Durable}
+	w, err := newWpWorld(ctx, sys, p.ID, p.Notify, p.Durable)
 	if err != nil {
 		c.Error = "setup: " + err.Error()
 		return c
@@ -573,6 +687,7 @@ func wpRunCase(ctx context.Context, sys *actorSystem, p wpPlan) *wpCase {
 				break
 			}
 		}
+		s.settle()
 		return c
 	}
 	for n := int64(1); n <= s.nWorkers; n++ {
@@ -596,7 +711,35 @@ func wpRunCase(ctx context.Context, sys *actorSystem, p wpPlan) *wpCase {
 			break
 		}
 	}
+	s.settle()
 	return c
+}
+
+// settle lets every outstanding durable operation complete and reach the controller (the storage lane is
+// asynchronous but not lossy), then records what the queue holds.
+func (s *wpSched) settle() {
+	if s.w.queue == nil {
+		return
+	}
+	for guard := 0; guard < 500 && !s.c.Failed && s.c.Error == ""; guard++ {
+		s.w.collectResults()
+		if len(s.w.results) == 0 {
+			break
+		}
+		if !s.do(wpOp{Op: "QueueResult"}) {
+			break
+		}
+	}
+	q := s.w.queue
+	q.mu.Lock()
+	defer q.mu.Unlock()
+	for id := range q.confirmed {
+		s.c.QueueConfirmed = append(s.c.QueueConfirmed, rdMidN(id))
+	}
+	sort.Slice(s.c.QueueConfirmed, func(i, j int) bool { return s.c.QueueConfirmed[i] < s.c.QueueConfirmed[j] })
+	for _, m := range q.stored {
+		s.c.QueueLeft = append(s.c.QueueLeft, rdMidN(m.MessageID()))
+	}
 }
 
 type wpPlan struct {
@@ -607,6 +750,7 @@ type wpPlan struct {
 	Workers int      `json:"workers"`
 	Steps   int      `json:"steps"`
 	Seed    uint64   `json:"seed"`
+	Durable bool     `json:"durable,omitempty"`
 	Ops     []wpOp   `json:"ops,omitempty"`
 	Events  []string `json:"events,omitempty"`
 }
